@@ -336,7 +336,7 @@ theorem parse_of_extract {P : Params} {l e k q : List Char} {kind : Kind}
   cases makeRule P kind e <;> rfl
 
 theorem makeRule_plain {P : Params} {kind : Kind} {e : List Char} (h : makeRule P kind e = none) :
-    (kind = .escaped ∨ kind = .glob ∨ kind = .regex) ∧ P.make kind e = none := by
+    kind = .escaped ∨ kind = .glob ∨ kind = .regex := by
   cases kind <;> simp_all [makeRule]
 
 /-- a line without modifier is an `equal` expectation for the whole line -/
@@ -357,7 +357,7 @@ theorem parse_total {P : Params} {l : List Char} (hl : '\n' ∉ l) :
     (∃ e, parse P l = .ok e) ∨
     (parse P l = .error .makeError ∧ ∃ p K Q kind, Modifier P.isWhite l p K Q ∧
       lookupKind (orEqual K) = some kind ∧ (kind = .escaped ∨ kind = .glob ∨ kind = .regex) ∧
-      P.make kind p = none) := by
+      makeRule P kind p = none) := by
   by_cases h : ∃ p K Q, Modifier P.isWhite l p K Q
   · obtain ⟨p, K, Q, hm⟩ := h
     obtain ⟨kind, hk⟩ := lookup_orEqual hm.choose_spec.2.1
@@ -366,7 +366,7 @@ theorem parse_total {P : Params} {l : List Char} (hl : '\n' ∉ l) :
     | some b => left; rw [hmk] at hp; exact ⟨_, hp⟩
     | none =>
       right; rw [hmk] at hp
-      exact ⟨hp, p, K, Q, kind, hm, hk, makeRule_plain hmk⟩
+      exact ⟨hp, p, K, Q, kind, hm, hk, makeRule_plain hmk, hmk⟩
   · exact Or.inl ⟨_, parse_of_no_modifier hl h⟩
 
 /-! ### rendering and the round trip -/
@@ -478,11 +478,12 @@ theorem parse_render {P : Params} (hw : P.isWhite ' ' = true)
   obtain ⟨k, x, o, m⟩ := e
   cases k with
   | equal =>
-    simp only [sourceText] at hnl
     by_cases hu : P.hasUnprintable x = true
-    · simp only [toExpressionString, sourceKind, sourceText, hu, if_true, true_and]
+    · simp only [sourceText, hu, if_true] at hnl
+      simp only [toExpressionString, sourceKind, sourceText, hu, if_true, true_and]
       exact parse_render_kind hw hnl .escaped o m
     · have hu' : P.hasUnprintable x = false := by simpa using hu
+      simp only [sourceText, hu', Bool.false_eq_true, if_false] at hnl
       simp only [toExpressionString, sourceKind, sourceText, hu', Bool.false_eq_true, if_false, and_false]
       by_cases hq : quantStr o m = []
       · obtain ⟨rfl, rfl⟩ := quantOpt_none (quantStr_eq_nil.mp hq)
@@ -576,26 +577,103 @@ theorem roundtrip_equal_modifier_shaped {P : Params} (hw : P.isWhite ' ' = true)
   have he := endsLike_of_modifier hsub hm
   constructor
   · simp [toExpressionString, hu, ht, he, quantStr, quantOpt, Kind.name]
-  · have hnl : '\n' ∉ sourceText P ⟨.equal, b, false, false⟩ := by simp [sourceText, ht]
+  · have hnl : '\n' ∉ sourceText P ⟨.equal, b, false, false⟩ := by simp [sourceText, ht, hu]
     have := roundtrip hw hsub (e := ⟨.equal, b, false, false⟩) hnl (by simp [sourceKind, sourceText, hu, ht, makeRule, hb])
     rw [this, reread_eq (by intro _; exact hu)]
 
-/-- the open finding: when the `escaped` constructor does not give the bytes back (it strips a
-    trailing ` (no-eol)`), the `equal` expectation `a<TAB> (no-eol)` does not read back -/
-theorem roundtrip_fails_no_eol_strip {P : Params} (hw : P.isWhite ' ' = true)
-    (hsub : ∀ c, P.isWhite c = true → P.isSpaceStd c = true) {b b' : List UInt8}
+/-! ### `guard_tailing_no_eol` neutralises the ` (no-eol)` strip of the `escaped` constructor -/
+
+theorem stripSuffix_eq_some {suf t body : List Char} : stripSuffix suf t = some body ↔ t = body ++ suf := by
+  unfold stripSuffix
+  constructor
+  · intro h
+    obtain ⟨r, hr, rfl⟩ := Option.map_eq_some_iff.mp h
+    have := stripPrefix_eq_some.mp hr
+    have h2 := congrArg List.reverse this
+    simpa using h2
+  · rintro rfl
+    have : stripPrefix suf.reverse (suf.reverse ++ body.reverse) = some body.reverse :=
+      stripPrefix_eq_some.mpr rfl
+    simp [this]
+
+/-- the guarded text never ends in ` (no-eol)` -/
+theorem stripSuffix_guard (t : List Char) : stripSuffix noEolSuffix (guardTailingNoEol t) = none := by
+  unfold guardTailingNoEol
+  split
+  · simp [stripSuffix, noEolSuffix, stripPrefix]
+  · assumption
+
+/-- hence the constructor's strip is the identity on it -/
+theorem stripNoEol_guard (t : List Char) : stripNoEol (guardTailingNoEol t) = guardTailingNoEol t := by
+  simp [stripNoEol, stripSuffix_guard]
+
+theorem makeRule_escaped_guard (P : Params) (t : List Char) :
+    makeRule P .escaped (guardTailingNoEol t) = P.make .escaped (guardTailingNoEol t) := by
+  simp [makeRule, stripNoEol_guard]
+
+theorem guard_no_newline {t : List Char} (h : '\n' ∉ t) : '\n' ∉ guardTailingNoEol t := by
+  unfold guardTailingNoEol
+  split
+  · rename_i body hb
+    have := stripSuffix_eq_some.mp hb
+    subst this
+    intro hm
+    have hb' : '\n' ∉ body := fun e => h (List.mem_append_left _ e)
+    rcases List.mem_append.mp hm with hm | hm
+    · exact hb' hm
+    · revert hm; decide
+  · exact h
+
+theorem sourceText_guarded {P : Params} {e : Expectation} (h : sourceKind P e = .escaped) :
+    ∃ t, sourceText P e = guardTailingNoEol t := by
+  obtain ⟨k, x, o, m⟩ := e
+  cases k with
+  | equal =>
+    by_cases hu : P.hasUnprintable x = true
+    · exact ⟨P.escPrintable x, by simp [sourceText, hu]⟩
+    · simp [sourceKind, hu] at h
+  | escaped =>
+    by_cases hu : P.hasUnprintable x = true
+    · exact ⟨P.escPrintable x, by simp [sourceText, hu]⟩
+    · exact ⟨doubleBackslash (P.escPrintable x), by simp [sourceText, hu]⟩
+  | glob => simp [sourceKind] at h
+  | regex => simp [sourceKind] at h
+  | noEol => simp [sourceKind] at h
+
+/-- everything written as `escaped` reads back exactly when resolving the escape sequences of
+    the written text (`apply_escaped_filter_bytes`, no strip involved) gives the bytes back -/
+theorem roundtrip_escaped_iff {P : Params} (hw : P.isWhite ' ' = true)
+    (hsub : ∀ c, P.isWhite c = true → P.isSpaceStd c = true) {e : Expectation}
+    (hnl : '\n' ∉ sourceText P e) (hk : sourceKind P e = .escaped) :
+    parse P (toExpressionString P e) = .ok (reread P e) ↔
+      P.make .escaped (sourceText P e) = some e.expr := by
+  rw [roundtrip_iff hw hsub hnl, hk]
+  obtain ⟨t, ht⟩ := sourceText_guarded hk
+  rw [ht, makeRule_escaped_guard]
+
+/-- regression (was the witness of the defect repaired by c1bf05c): the `equal` expectation
+    `a<TAB> (no-eol)` is written `a\\t\\x20(no-eol) (escaped)`; nothing is stripped when that is read -/
+theorem roundtrip_no_eol_guarded {P : Params} (hw : P.isWhite ' ' = true)
+    (hsub : ∀ c, P.isWhite c = true → P.isSpaceStd c = true) {b : List UInt8}
     (hu : P.hasUnprintable b = true)
     (ht : P.escPrintable b = ['a', '\\', 't', ' ', '(', 'n', 'o', '-', 'e', 'o', 'l', ')'])
-    (hmk : P.make .escaped ['a', '\\', 't', ' ', '(', 'n', 'o', '-', 'e', 'o', 'l', ')'] = some b')
-    (hne : b' ≠ b) :
-    parse P (toExpressionString P ⟨.equal, b, false, false⟩) = .ok ⟨.escaped, b', false, false⟩ ∧
-    parse P (toExpressionString P ⟨.equal, b, false, false⟩) ≠ .ok (reread P ⟨.equal, b, false, false⟩) := by
-  have hnl : '\n' ∉ sourceText P ⟨.equal, b, false, false⟩ := by simp [sourceText, ht]
-  have h := parse_render hw hsub hnl
-  simp only [sourceKind, sourceText, hu, ht, and_self, if_true, makeRule, hmk] at h
-  refine ⟨h, ?_⟩
-  rw [h]
-  simp [reread, sourceKind, hu, hne]
+    (hmk : P.make .escaped ['a', '\\', 't', '\\', 'x', '2', '0', '(', 'n', 'o', '-', 'e', 'o', 'l', ')'] = some b) :
+    toExpressionString P ⟨.equal, b, false, false⟩ =
+      ['a', '\\', 't', '\\', 'x', '2', '0', '(', 'n', 'o', '-', 'e', 'o', 'l', ')',
+       ' ', '(', 'e', 's', 'c', 'a', 'p', 'e', 'd', ')'] ∧
+    parse P (toExpressionString P ⟨.equal, b, false, false⟩) = .ok ⟨.escaped, b, false, false⟩ := by
+  have hg : guardTailingNoEol ['a', '\\', 't', ' ', '(', 'n', 'o', '-', 'e', 'o', 'l', ')'] =
+      ['a', '\\', 't', '\\', 'x', '2', '0', '(', 'n', 'o', '-', 'e', 'o', 'l', ')'] := by decide
+  have hst : sourceText P ⟨.equal, b, false, false⟩ =
+      ['a', '\\', 't', '\\', 'x', '2', '0', '(', 'n', 'o', '-', 'e', 'o', 'l', ')'] := by
+    simp [sourceText, hu, ht, hg]
+  have hsk : sourceKind P ⟨.equal, b, false, false⟩ = .escaped := by simp [sourceKind, hu]
+  constructor
+  · simp [toExpressionString, hu, ht, hg, quantStr, quantOpt, Kind.name]
+  · have hnl : '\n' ∉ sourceText P ⟨.equal, b, false, false⟩ := by rw [hst]; decide
+    have := (roundtrip_escaped_iff hw hsub hnl hsk).mpr (by rw [hst]; exact hmk)
+    rw [this]
+    simp [reread, hsk]
 
 /-- `no-eol` keeps its text: the round trip holds exactly when the printable rendering is the text -/
 theorem roundtrip_noEol_iff {P : Params} (hw : P.isWhite ' ' = true)
